@@ -27,7 +27,7 @@ func buildNativeOverlay(repo, harnessDir, pkgDir, tmp string) (string, error) {
 	pkgName := ""
 	var harnesses []string
 	for _, e := range ents {
-		if !strings.HasSuffix(e.Name(), ".go") {
+		if !strings.HasSuffix(e.Name(), ".go") || strings.HasSuffix(e.Name(), "_sym.go") {
 			continue
 		}
 		src, err := os.ReadFile(filepath.Join(hd, e.Name()))
@@ -115,6 +115,9 @@ type replayFile struct {
 	Decisions []int32        `json:"decisions"`
 	Trace     []string       `json:"trace,omitempty"`
 	Outs      []string       `json:"observations,omitempty"`
+	Sched     []SchedStep    `json:"sched_order,omitempty"`
+	SchedHang bool           `json:"sched_hang,omitempty"`
+	SchedFree bool           `json:"sched_free,omitempty"`
 	Note      string         `json:"note,omitempty"`
 }
 
@@ -126,7 +129,16 @@ type NativeTest struct {
 	Repo   string
 }
 
+// BuildNativeTestRace builds the replay binary with the race detector.
+func BuildNativeTestRace(repo, harnessDir, pkgDir string) (*NativeTest, error) {
+	return buildNativeTest(repo, harnessDir, pkgDir, true)
+}
+
 func BuildNativeTest(repo, harnessDir, pkgDir string) (*NativeTest, error) {
+	return buildNativeTest(repo, harnessDir, pkgDir, false)
+}
+
+func buildNativeTest(repo, harnessDir, pkgDir string, race bool) (*NativeTest, error) {
 	tmp, err := os.MkdirTemp("", "p9sym-replay-")
 	if err != nil {
 		return nil, err
@@ -139,7 +151,12 @@ func BuildNativeTest(repo, harnessDir, pkgDir string) (*NativeTest, error) {
 	bin := filepath.Join(tmp, "replay.test")
 	ctx, cancel := context.WithTimeout(context.Background(), 5*time.Minute)
 	defer cancel()
-	cmd := exec.CommandContext(ctx, "go", "test", "-c", "-vet=off", "-overlay", ov, "-o", bin, "./"+pkgDir)
+	args := []string{"test", "-c", "-vet=off", "-overlay", ov, "-o", bin}
+	if race {
+		args = append(args, "-race")
+	}
+	args = append(args, "./"+pkgDir)
+	cmd := exec.CommandContext(ctx, "go", args...)
 	cmd.Dir = repo
 	cmd.Env = append(os.Environ(), "GOFLAGS=-mod=mod", "GOPROXY=off", "GOSUMDB=off", "GOTOOLCHAIN=local")
 	out, err := cmd.CombinedOutput()
@@ -165,10 +182,19 @@ func (nt *NativeTest) Run(tapePath string, timeout time.Duration) (string, strin
 	cmd.Env = append(os.Environ(), "VERIF_REPLAY="+tapePath)
 	out, _ := cmd.CombinedOutput()
 	txt := string(out)
+	if strings.Contains(txt, "WARNING: DATA RACE") {
+		return "data-race-detected", txt
+	}
+	if i := strings.Index(txt, "fatal error: concurrent map"); i >= 0 {
+		return "fatal concurrent map access", txt
+	}
 	for _, line := range strings.Split(txt, "\n") {
 		if strings.HasPrefix(line, "VERIF-REPLAY-RESULT ") {
 			return strings.TrimPrefix(line, "VERIF-REPLAY-RESULT "), txt
 		}
+	}
+	if strings.Contains(txt, "WARNING: DATA RACE") {
+		return "data-race-detected", txt
 	}
 	if strings.Contains(txt, "test timed out") || ctx.Err() != nil {
 		return "timeout", txt
@@ -193,6 +219,14 @@ func confirms(v *Violation, res string) bool {
 		return strings.HasPrefix(res, "panic ") || strings.HasPrefix(res, "fatal ")
 	case "blocked", "deadlock":
 		return res == "timeout" || strings.HasPrefix(res, "fatal ")
+	case "schedule":
+		if v.SchedFree {
+			return res == "data-race-detected" || strings.HasPrefix(res, "fatal ")
+		}
+		if v.SchedHang {
+			return res == "sched-followed-then-hung"
+		}
+		return res == "sched-followed"
 	}
 	return false
 }
@@ -217,7 +251,7 @@ func ReplayNative(repo, harnessDir, pkgDir string, v *Violation, keep string) (s
 
 func writeReplayFile(path, property, pkgDir string, v *Violation) error {
 	rf := replayFile{Harness: v.Harness, Label: v.Label, Kind: v.Kind, Msg: v.Msg, Property: property, Pkg: pkgDir,
-		Tape: v.Tape, Params: v.Params, Decisions: v.Decisions, Trace: v.Trace, Outs: v.Outs}
+		Tape: v.Tape, Params: v.Params, Decisions: v.Decisions, Trace: v.Trace, Outs: v.Outs, Sched: v.Sched, SchedHang: v.SchedHang, SchedFree: v.SchedFree}
 	b, err := json.MarshalIndent(rf, "", " ")
 	if err != nil {
 		return err
